@@ -44,6 +44,7 @@ class ReplayRNG(TorchDispatchMode):
         kwargs = kwargs or {}
         if func not in ops.RANDOM:
             return func(*args, **kwargs)
+        self.eng.rng_calls.append((str(func), ops.bind(func, args, kwargs).get("generator")))
         real = func(*args, **kwargs)
         k = self.k
         self.k += 1
@@ -76,6 +77,7 @@ class ReplayEngine:
         self.opts = dict(opts or {})
         self.f64 = f64
         self.failures = []
+        self.rng_calls = []
         self.evaluated = 0
         self.sig = {}
         self.assumptions = []
@@ -92,9 +94,8 @@ class ReplayEngine:
         from . import engine as _eng
         _eng.REPLAY_F64[0] = bool(self.f64)
         T.DIV_POLICY[0] = "xr"
-        if any(k.startswith("rng") for k in self.model):
-            self._rng = ReplayRNG(self)
-            self._rng.__enter__()
+        self._rng = ReplayRNG(self)      # always on: injects the model's draws (if any) and records the generator of every random op
+        self._rng.__enter__()
         return self
 
     def __exit__(self, *a):
